@@ -171,6 +171,17 @@ class SparselyBin(Factory, Container):
             SparselyBin(self.binWidth, self.quantity, self.value, self.nanflow.zero(), self.origin)
         )
 
+    def _checkContent(self, other):
+        # the bins must be mergeable even where the filled indexes of the two operands do not overlap
+        if self.contentType != other.contentType:
+            raise ContainerException(
+                f"cannot add SparselyBins because their contents differ ({self.contentType} vs {other.contentType})"
+            )
+        mine = self.value if self.value is not None else next(iter(self.bins.values()), None)
+        theirs = other.value if other.value is not None else next(iter(other.bins.values()), None)
+        if mine is not None and theirs is not None:
+            mine + theirs  # raises if the sub-aggregators differ in structure
+
     @inheritdoc(Container)
     def __add__(self, other):
         if isinstance(other, SparselyBin):
@@ -182,6 +193,7 @@ class SparselyBin(Factory, Container):
                 raise ContainerException(
                     f"cannot add SparselyBins because origin differs ({self.origin} vs {other.origin})"
                 )
+            self._checkContent(other)
 
             out = SparselyBin(
                 self.binWidth,
@@ -213,6 +225,7 @@ class SparselyBin(Factory, Container):
                 raise ContainerException(
                     f"cannot add SparselyBins because origin differs ({self.origin} vs {other.origin})"
                 )
+            self._checkContent(other)
             self.entries += other.entries
             for i, v in other.bins.items():
                 if i in self.bins:
